@@ -85,7 +85,9 @@ def compile_battery(name, prelude, witnesses, compilers=('g++', 'clang++'), stds
     """Compile all witnesses; returns dict (compiler,std) -> {tag: (status, first_message)}
     with status in {'ok','error'}.  Raises AnalysisBroken on unattributable diagnostics."""
     if shards is None:
-        shards = max(1, min(common.JOBS, len(witnesses) // 40 or 1))
+        # shard size is independent of the number of workers (the cache key is the shard's text, and a
+        # shard must compile well within the tool timeout even on a loaded machine)
+        shards = max(1, (len(witnesses) + 199) // 200)
     jobs = []
     for comp in compilers:
         for std in stds:
